@@ -120,9 +120,17 @@ Proof.
       apply nth_error_upd_other. simpl. apply (Hj (i, v)). eapply nth_error_In. eassumption.
 Qed.
 
+(* the version of an alive handle is bounded by the number of handles issued *)
+Lemma alive_ver_bound {X} s hs al rem k key : GE X s hs al rem -> In (k, key) al -> (snd (hnd hs k) <= N.of_nat (length hs))%N.
+Proof.
+  intros HG Hin. destruct (g_alive HG k key Hin) as (Hlt & _ & Hs & _).
+  apply (ver_le_count s hs al rem _ _ HG Hs). intros E. inversion E as [[E1 E2]].
+  pose proof (g_hs_ver HG _ (nth_In_hnd hs k Hlt)) as Hb. rewrite E2 in Hb. unfold NULL_VER in Hb. lia.
+Qed.
+
 (* ---- destroyNow, unlocked ---- *)
 Lemma G_destroy_now s s' hs al rem k :
-  G s hs al rem -> k < length hs -> (snd (hnd hs k) + 1 < NULL_VER)%N ->
+  G s hs al rem -> k < length hs -> (N.of_nat (length hs) + 1 < NULL_VER)%N ->
   destroy_now_unlocked s (hnd hs k) = Ok s' ->
   G s' hs (kill al k) rem /\ same_ctl s s' /\ length (slots s') = length (slots s).
 Proof.
@@ -131,6 +139,9 @@ Proof.
   - apply (G_valid s hs al rem k HG Hk) in Ev. unfold alive in Ev. apply in_map_iff in Ev. destruct Ev as ((k0, key) & E0 & Hin). simpl in E0. subst k0.
     destruct (g_alive HG k key Hin) as (_ & HnW & Hslot & ai & idx & a & Hloc & Harch & Hkey & Hent).
     destruct (hnd hs k) as [i v] eqn:Eh. simpl in *.
+    assert (Hvb : (v + 1 < NULL_VER)%N).
+    { pose proof (alive_ver_bound s hs al rem k key HG Hin) as Hb. rewrite Eh in Hb. simpl in Hb. lia. }
+    clear Hv. rename Hvb into Hv.
     rewrite (nth_res_some _ _ _ Hloc) in H. simpl in H.
     apply bind_ok in H. destruct H as (s1 & Hrm & H). inversion H; subst s'; clear H.
     destruct (arch_remove_facts s hs al rem ai a idx i v s1 HG Harch Hent Hrm) as (Es & En & Ee & Hctl & ents' & Ea & El & Hnew & Hkeep & Hother).
@@ -144,4 +155,285 @@ Proof.
     + unfold release_id. simpl. rewrite Hb. rewrite upd_length. rewrite Es. reflexivity.
   - inversion H; subst s'. rewrite kill_not_alive; [auto using same_ctl_refl|].
     intros Ha. apply (G_valid s hs al rem k HG Hk) in Ha. congruence.
+Qed.
+
+(* ---- getArchetype ---- *)
+Lemma get_arch_G s hs al rem key s1 ai :
+  G s hs al rem -> get_arch s key = (s1, ai) ->
+  G s1 hs al rem /\ (exists a, nth_error (archs s1) ai = Some a /\ a_key a = key) /\
+  slots s1 = slots s /\ locs s1 = locs s /\ next_slot s1 = next_slot s /\ empty_slots s1 = empty_slots s /\ same_ctl s s1.
+Proof.
+  intros HG H. unfold get_arch in H. destruct (find_arch (archs s) key 0) as [i|] eqn:Ef.
+  - inversion H; subst s1 ai. destruct (find_arch_some _ _ _ _ Ef) as (_ & a & Hn & Hk). rewrite Nat.sub_0_r in Hn.
+    split; [assumption|]. split; [exists a; auto|]. repeat split.
+  - inversion H; subst s1 ai. split; [apply G_new_arch; [assumption|apply (find_arch_none _ _ _ Ef)]|].
+    split; [eexists; split; [simpl; apply nth_error_app_last|reflexivity]|]. repeat split.
+Qed.
+
+(* ---- creation, unlocked: createWithOutInit + Archetype::insert ---- *)
+Lemma G_create s hs al ai a key s2 h s3 :
+  G s hs al [] -> nth_error (archs s) ai = Some a -> a_key a = key ->
+  (N.of_nat (length (slots s)) < NULL_ID)%N ->
+  create_id s = Ok (s2, h) -> arch_insert s2 ai h = Ok s3 ->
+  G s3 (hs ++ [h]) (al ++ [(length hs, key)]) [] /\ same_ctl s s3 /\ length (slots s3) <= S (length (slots s)) /\
+  length (slots s) <= length (slots s3).
+Proof.
+  intros HG Harch Hkey Hid Hc Hi. pose proof (g_len HG) as Hlen. unfold create_id in Hc. destruct (empty_slots s) as [|e] eqn:Ee.
+  - (* a fresh id *)
+    inversion Hc; subst s2 h; clear Hc. unfold arch_insert in Hi. simpl in Hi. rewrite (nth_res_some _ _ _ Harch) in Hi. simpl in Hi.
+    unfold update_location in Hi. apply bind_ok in Hi. destruct Hi as (ls & Hu & Hs). inversion Hs; subst s3; clear Hs.
+    apply upd_res_ok in Hu. simpl in Hu. rewrite Nat2N.id in Hu. destruct Hu as (Hlt & ->).
+    set (n := length (slots s)) in *.
+    assert (Hother : forall {A} (l : list A) (x : A) j, length l = n -> j <> n -> nth_error (l ++ [x]) j = nth_error l j).
+    { intros A l x j Hl Hj. destruct (Nat.lt_ge_cases j n) as [Hjl|Hjg]; [apply nth_error_app1; lia|].
+      assert (E1 : nth_error (l ++ [x]) j = None) by (apply nth_error_None; rewrite app_length; simpl; lia).
+      assert (E2 : nth_error l j = None) by (apply nth_error_None; lia). congruence. }
+    split; [|split; [|split]].
+    + eapply (G_add s _ hs al (N.of_nat n) 0%N ai a key HG); simpl; rewrite ?Nat2N.id.
+      * rewrite upd_length, !app_length. simpl. lia.
+      * rewrite app_length. simpl. unfold n. lia.
+      * unfold n. apply nth_error_app_last.
+      * intros j Hj. apply Hother; [reflexivity|assumption].
+      * unfold W. simpl. rewrite Ee. constructor.
+      * intros j. unfold W. simpl. rewrite Ee. simpl. tauto.
+      * intros k Hk E. exfalso. pose proof (ids_in_range s hs al k HG Hk) as Hr. rewrite E, Nat2N.id in Hr. unfold n in Hr. lia.
+      * assumption.
+      * assumption.
+      * reflexivity.
+      * apply nth_error_upd_same. rewrite app_length. simpl. lia.
+      * intros j Hj. rewrite nth_error_upd_other by congruence. apply Hother; assumption.
+      * unfold NULL_VER. lia.
+      * assumption.
+      * intros w Hw. lia.
+    + unfold same_ctl. simpl. auto.
+    + simpl. rewrite app_length. simpl. lia.
+    + simpl. rewrite app_length. simpl. lia.
+  - (* a recycled id *)
+    apply bind_ok in Hc. destruct Hc as (sl & Hsl & Hc). apply nth_res_ok in Hsl. simpl in Hc.
+    apply bind_ok in Hc. destruct Hc as (ls & Hu & Hc). inversion Hc; subst s2 h; clear Hc.
+    apply upd_res_ok in Hu. simpl in Hu. destruct Hu as (Hlt & ->).
+    unfold arch_insert in Hi. simpl in Hi. rewrite (nth_res_some _ _ _ Harch) in Hi. simpl in Hi.
+    unfold update_location in Hi. apply bind_ok in Hi. destruct Hi as (ls2 & Hu2 & Hs). inversion Hs; subst s3; clear Hs.
+    apply upd_res_ok in Hu2. simpl in Hu2. destruct Hu2 as (Hlt2 & ->).
+    set (i := next_slot s) in *.
+    assert (Hi_lt : N.to_nat i < length (slots s)) by (apply nth_error_Some; congruence).
+    assert (EW : W s = i :: walk e (s_id sl) (slots s)).
+    { unfold W. rewrite Ee. rewrite walk_S. fold i. rewrite Hsl. reflexivity. }
+    pose proof (g_free_nodup HG) as Hnd. rewrite EW in Hnd. inversion Hnd as [|x l Hni Hnd']; subst x l.
+    assert (Hin_i : In i (W s)) by (rewrite EW; left; reflexivity).
+    assert (Hver : (s_ver sl < NULL_VER)%N) by (apply (g_free_ver HG i sl Hin_i Hsl)).
+    assert (EW' : walk e (s_id sl) (upd (slots s) (N.to_nat i) {| s_id := i; s_ver := s_ver sl |}) = walk e (s_id sl) (slots s)).
+    { apply walk_upd. intros j Hj E. apply Hni. replace i with j; [assumption|apply N2Nat.inj; assumption]. }
+    split; [|split; [|split]].
+    + eapply (G_add s _ hs al i (s_ver sl) ai a key HG); simpl.
+      * rewrite !upd_length. assumption.
+      * rewrite upd_length. lia.
+      * apply nth_error_upd_same. assumption.
+      * intros j Hj. apply nth_error_upd_other. congruence.
+      * unfold W. simpl. rewrite EW'. assumption.
+      * intros j. unfold W at 1. simpl. rewrite EW', EW. simpl. split.
+        -- intros Hj. split; [right; assumption|]. intros ->. contradiction.
+        -- intros ([E|Hj] & Hne); [congruence|assumption].
+      * intros k Hk E.
+        assert (Hna : ~ alive al k).
+        { intros Ha. unfold alive in Ha. apply in_map_iff in Ha. destruct Ha as ((k0, key0) & E0 & Hin). simpl in E0. subst k0.
+          destruct (g_alive HG k key0 Hin) as (_ & HnW & _). apply HnW. rewrite E. assumption. }
+        split; [|assumption].
+        assert (Hnp : ~ pend [] k) by (intros (key0 & [])).
+        destruct (g_dead HG k Hk Hna Hnp) as (sl' & Hs' & Hl'). rewrite E, Hsl in Hs'. inversion Hs'; subst sl'. assumption.
+      * assumption.
+      * assumption.
+      * reflexivity.
+      * apply nth_error_upd_same. rewrite upd_length. assumption.
+      * intros j Hj. rewrite !nth_error_upd_other by congruence. reflexivity.
+      * assumption.
+      * apply N.lt_trans with (N.of_nat (length (slots s))); [|assumption]. lia.
+      * intros w Hw. rewrite <- (N2Nat.id i). apply (g_hist HG (N.to_nat i) sl w Hsl); [|assumption].
+        intros E. rewrite E in Hver. simpl in Hver. lia.
+    + unfold same_ctl. simpl. auto.
+    + simpl. rewrite upd_length. lia.
+    + simpl. rewrite upd_length. lia.
+Qed.
+
+(* ---- clearArchetype ---- *)
+Lemma GE_weaken {X Y : nat -> nat -> Prop} s hs al rem : (forall a i, X a i -> Y a i) -> GE X s hs al rem -> GE Y s hs al rem.
+Proof.
+  intros HXY HG. constructor;
+    [apply (g_len HG)|apply (g_free_nodup HG)|apply (g_free_range HG)|apply (g_free_ver HG)|apply (g_hs_ver HG)|apply (g_hs_id HG)
+    |apply (g_hs_nodup HG)|apply (g_al_nodup HG)|apply (g_alive HG)|apply (g_dead HG)|apply (g_pend HG)|apply (g_slots HG)
+    |apply (g_arch_keys HG)| |apply (g_hist HG)].
+  intros ai a idx h Hn. apply (g_arch_members HG). intros Hx. apply Hn. apply HXY. assumption.
+Qed.
+
+Lemma skipn_cons_nth {A} (l : list A) j h t : skipn j l = h :: t -> nth_error l j = Some h /\ skipn (S j) l = t.
+Proof.
+  revert j. induction l as [|x l IH]; intros [|j] H; simpl in *; try discriminate.
+  - inversion H. auto.
+  - apply IH. assumption.
+Qed.
+
+Lemma fold_kill_filter ks al : fold_left kill ks al = filter (fun p => negb (existsb (Nat.eqb (fst p)) ks)) al.
+Proof.
+  revert al. induction ks as [|k ks IH]; intros al; simpl.
+  - symmetry. apply forallb_filter_id. apply forallb_forall. reflexivity.
+  - rewrite IH. unfold kill. clear IH. induction al as [|p al IHal]; simpl; [reflexivity|].
+    destruct (Nat.eqb_spec (fst p) k) as [E|E]; simpl.
+    + assumption.
+    + destruct (existsb (Nat.eqb (fst p)) ks); simpl; [assumption|f_equal; assumption].
+Qed.
+
+Lemma clear_loop ai a hs rem : forall rest j s al s',
+  GE (exj ai j) s hs al rem -> nolive s hs al ai j -> nth_error (archs s) ai = Some a ->
+  skipn j (a_ents a) = rest -> (N.of_nat (length hs) + 1 < NULL_VER)%N ->
+  fold_res clear_one rest s = Ok s' ->
+  exists ks, Forall2 (fun k h => hnd hs k = h /\ k < length hs) ks rest /\
+    GE (exj ai (j + length rest)) s' hs (fold_left kill ks al) rem /\ nolive s' hs (fold_left kill ks al) ai (j + length rest) /\
+    archs s' = archs s /\ same_ctl s s' /\ length (slots s') = length (slots s).
+Proof.
+  induction rest as [|h t IH]; intros j s al s' HG Hnl Harch Hskip Hcnt H.
+  - simpl in H. inversion H; subst s'. exists []. rewrite Nat.add_0_r. simpl. split; [constructor|]. split; [assumption|]. split; [assumption|]. split; [reflexivity|]. split; [apply same_ctl_refl|reflexivity].
+  - simpl in H. apply bind_ok in H. destruct H as (s1 & H1 & H).
+    destruct (skipn_cons_nth _ _ _ _ Hskip) as (Hent & Hskip').
+    destruct h as [i v].
+    assert (Hnx : ~ exj ai j ai j) by (intros (_ & Hlt); lia).
+    destruct (g_arch_members HG ai a j (i, v) Hnx Harch Hent) as (k & Hk & Hklt & Eh & Hloc). simpl in Hloc.
+    assert (Hv : (v + 1 < NULL_VER)%N).
+    { pose proof (alive_ver_bound s hs al rem k _ HG Hk) as Hb. rewrite Eh in Hb. simpl in Hb. lia. }
+    (* what clear_one does *)
+    unfold clear_one in H1. simpl in H1. rewrite (nth_res_some _ _ _ Hloc) in H1. simpl in H1.
+    apply bind_ok in H1. destruct H1 as (ls & Hu & H1). apply upd_res_ok in Hu. destruct Hu as (Hlt & ->).
+    apply bind_ok in H1. destruct H1 as (sl & Hu2 & H1). apply upd_res_ok in Hu2. simpl in Hu2. destruct Hu2 as (Hlt2 & ->).
+    inversion H1; subst s1; clear H1.
+    match type of H with fold_res clear_one t ?S1 = _ => set (s1 := S1) in * end.
+    destruct (G_release_member s s1 hs al rem ai a j i v HG Harch Hent Hv) as (k' & Eh' & Hk'lt & HG1); unfold s1; simpl.
+    + rewrite ver_succ_nowrap by lia. reflexivity.
+    + reflexivity.
+    + reflexivity.
+    + reflexivity.
+    + apply upd_length.
+    + intros x Hx. apply nth_error_upd_other. congruence.
+    + assert (k' = k) by (eapply (hnd_inj s hs al rem); eauto; congruence). subst k'.
+      assert (Hnl1 : nolive s1 hs (kill al k) ai (S j)).
+      { intros k2 key2 idx2 Hin2 Hloc2. apply kill_in in Hin2. destruct Hin2 as (Hin2 & Hne2).
+        assert (Hne_i : fst (hnd hs k2) <> i).
+        { intros E. apply Hne2. eapply (live_ids_distinct s hs al rem); eauto. rewrite Eh. exact E. }
+        unfold s1 in Hloc2. simpl in Hloc2. rewrite nth_error_upd_other in Hloc2 by (intros E; apply Hne_i; apply N2Nat.inj; auto).
+        pose proof (Hnl k2 key2 idx2 Hin2 Hloc2) as Hle.
+        destruct (Nat.eq_dec idx2 j) as [->|Hnj]; [|lia]. exfalso.
+        destruct (g_alive HG k2 key2 Hin2) as (Hk2lt & _ & _ & ai2 & idx3 & a2 & Hl2 & Ha2 & _ & He2).
+        rewrite Hloc2 in Hl2. inversion Hl2; subst ai2 idx3. rewrite Harch in Ha2. inversion Ha2; subst a2.
+        rewrite Hent in He2. inversion He2 as [E2]. apply Hne2. eapply (hnd_inj s hs al rem); eauto. congruence. }
+      destruct (IH (S j) s1 (kill al k) s' HG1 Hnl1) as (ks & Hks & HG2 & Hnl2 & Ea & Hctl & Hlen); try assumption.
+      exists (k :: ks). cbn [fold_left length]. replace (j + S (length t)) with (S j + length t) by lia.
+      split; [constructor; auto|]. split; [assumption|]. split; [assumption|]. split; [rewrite Ea; reflexivity|].
+      split; [|rewrite Hlen; unfold s1; simpl; rewrite upd_length; reflexivity].
+      eapply same_ctl_trans; [|eassumption]. unfold same_ctl, s1. simpl. auto.
+Qed.
+
+Lemma al_key_unique (al : list (nat * N)) k x y : NoDup (map fst al) -> In (k, x) al -> In (k, y) al -> x = y.
+Proof.
+  induction al as [|[a b] t IH]; simpl; intros Hnd H1 H2; [contradiction|]. inversion Hnd as [|? ? Hni Hnd']; subst.
+  destruct H1 as [E1|H1], H2 as [E2|H2].
+  - congruence.
+  - inversion E1; subst. exfalso. apply Hni. apply in_map_iff. exists (k, y). auto.
+  - inversion E2; subst. exfalso. apply Hni. apply in_map_iff. exists (k, x). auto.
+  - apply IH; assumption.
+Qed.
+
+Lemma arch_key_index (l : list arch) i j a b :
+  NoDup (map a_key l) -> nth_error l i = Some a -> nth_error l j = Some b -> a_key a = a_key b -> i = j.
+Proof.
+  intros Hnd Ha Hb E. apply (proj1 (NoDup_nth_error (map a_key l)) Hnd).
+  - rewrite map_length. apply nth_error_Some. congruence.
+  - rewrite (map_nth_error a_key _ _ Ha), (map_nth_error a_key _ _ Hb). congruence.
+Qed.
+
+Lemma Forall2_in_r {A B} (R : A -> B -> Prop) la lb b : Forall2 R la lb -> In b lb -> exists a, In a la /\ R a b.
+Proof. induction 1 as [|x y la lb Hxy HF IH]; simpl; intros Hin; [contradiction|]. destruct Hin as [<-|Hin]; [exists x; auto|]. destruct (IH Hin) as (a & Ha & Hr). exists a. auto. Qed.
+Lemma Forall2_in_l {A B} (R : A -> B -> Prop) la lb a : Forall2 R la lb -> In a la -> exists b, In b lb /\ R a b.
+Proof. induction 1 as [|x y la lb Hxy HF IH]; simpl; intros Hin; [contradiction|]. destruct Hin as [<-|Hin]; [exists y; auto|]. destruct (IH Hin) as (b & Hb & Hr). exists b. auto. Qed.
+
+Lemma G_clear_arch s s' hs al rem ai a :
+  G s hs al rem -> nth_error (archs s) ai = Some a -> (N.of_nat (length hs) + 1 < NULL_VER)%N ->
+  clear_arch s ai = Ok s' ->
+  G s' hs (filter (fun p => negb (N.eqb (snd p) (a_key a))) al) rem /\ same_ctl s s' /\ length (slots s') = length (slots s).
+Proof.
+  intros HG Harch Hcnt H. unfold clear_arch in H. rewrite (nth_res_some _ _ _ Harch) in H. simpl in H.
+  apply bind_ok in H. destruct H as (s1 & Hf & H). inversion H; subst s'; clear H.
+  assert (HG0 : GE (exj ai 0) s hs al rem) by (apply (GE_weaken s hs al rem (X := noex)); [intros ? ? []|assumption]).
+  assert (Hnl0 : nolive s hs al ai 0) by (intros ? ? ? ? ?; lia).
+  destruct (clear_loop ai a hs rem (a_ents a) 0 s al s1 HG0 Hnl0 Harch eq_refl Hcnt Hf) as (ks & Hks & HG1 & Hnl1 & Ea & Hctl & Hlen).
+  simpl in HG1, Hnl1.
+  assert (Harch1 : nth_error (archs s1) ai = Some a) by (rewrite Ea; assumption).
+  pose proof (G_clear_list s1 hs _ rem ai a HG1 Hnl1 Harch1) as HG2.
+  assert (Eal : fold_left kill ks al = filter (fun p => negb (N.eqb (snd p) (a_key a))) al).
+  { rewrite fold_kill_filter. apply filter_ext_in. intros [k key] Hin. simpl. f_equal.
+    destruct (N.eqb_spec key (a_key a)) as [->|Hne].
+    - (* alive with the key of a: located in ai, hence one of the released members *)
+      destruct (g_alive HG k (a_key a) Hin) as (Hklt & _ & _ & ai' & idx & a' & _ & Ha' & Hk' & He').
+      assert (ai' = ai) by (eapply arch_key_index; eauto using (g_arch_keys HG)). subst ai'.
+      rewrite Harch in Ha'. inversion Ha'; subst a'.
+      destruct (Forall2_in_r _ _ _ _ Hks (nth_error_In _ _ He')) as (k2 & Hk2 & E2 & Hk2lt).
+      assert (k2 = k) by (eapply (hnd_inj s hs al rem); eauto). subst k2.
+      apply existsb_exists. exists k. split; [assumption|apply Nat.eqb_refl].
+    - apply not_true_is_false. intros Hex. apply existsb_exists in Hex. destruct Hex as (k2 & Hk2 & E2). apply Nat.eqb_eq in E2. subst k2.
+      destruct (Forall2_in_l _ _ _ _ Hks Hk2) as (h & Hh & Eh & Hklt).
+      apply In_nth_error in Hh. destruct Hh as (idx & Hidx).
+      destruct (g_arch_members HG ai a idx h (noex_no _ _) Harch Hidx) as (k' & Hin' & Hk'lt & Eh' & _).
+      assert (k' = k) by (eapply (hnd_inj s hs al rem); eauto; congruence). subst k'.
+      apply Hne. eapply al_key_unique; eauto using (g_al_nodup HG). }
+  rewrite <- Eal. rewrite Ea. split; [rewrite Ea in HG2; exact HG2|]. split; [|simpl; assumption].
+  unfold same_ctl in *. simpl. assumption.
+Qed.
+
+(* ---- update(): the deferred destroys, through the checked path ---- *)
+Lemma is_valid_null s : is_valid s null_handle = false.
+Proof. unfold is_valid. replace (is_null null_handle) with true by (vm_compute; reflexivity). reflexivity. Qed.
+
+Lemma filter_filter {A} (f g : A -> bool) l : filter g (filter f l) = filter (fun x => f x && g x) l.
+Proof. induction l as [|x l IH]; simpl; [reflexivity|]. destruct (f x); simpl; [destruct (g x); simpl; congruence|assumption]. Qed.
+
+Definition not_in_marked (hs : list handle) (m : list handle) (p : nat * N) : bool :=
+  forallb (fun h => negb (handle_eqb (hnd hs (fst p)) h)) m.
+
+Lemma kill_as_handle_filter {X} s hs al rem k : GE X s hs al rem -> k < length hs ->
+  kill al k = filter (fun p => negb (handle_eqb (hnd hs (fst p)) (hnd hs k))) al.
+Proof.
+  intros HG Hk. unfold kill. apply filter_ext_in. intros [k' key] Hin. simpl. f_equal.
+  destruct (g_alive HG k' key Hin) as (Hk' & _).
+  destruct (Nat.eqb_spec k' k) as [->|Hne].
+  - symmetry. apply handle_eqb_eq. reflexivity.
+  - symmetry. apply not_true_is_false. intros E. apply handle_eqb_eq in E. apply Hne. eapply (hnd_inj s hs al rem); eauto.
+Qed.
+
+Lemma alive_not_null {X} s hs al rem k key : GE X s hs al rem -> In (k, key) al -> hnd hs k <> null_handle.
+Proof.
+  intros HG Hin E. destruct (g_alive HG k key Hin) as (Hk & _). pose proof (g_hs_ver HG _ (nth_In_hnd hs k Hk)) as Hv.
+  rewrite E in Hv. simpl in Hv. unfold NULL_VER in Hv. lia.
+Qed.
+
+Lemma G_destroy_list hs rem : forall m s al s',
+  G s hs al rem -> (N.of_nat (length hs) + 1 < NULL_VER)%N ->
+  (forall h, In h m -> h = null_handle \/ exists k, k < length hs /\ hnd hs k = h) ->
+  fold_res destroy_now_unlocked m s = Ok s' ->
+  G s' hs (filter (not_in_marked hs m) al) rem /\ same_ctl s s' /\ length (slots s') = length (slots s).
+Proof.
+  induction m as [|h t IH]; intros s al s' HG Hcnt Hm H.
+  - simpl in H. inversion H; subst s'. unfold not_in_marked. simpl. rewrite forallb_filter_id by (apply forallb_forall; reflexivity).
+    auto using same_ctl_refl.
+  - simpl in H. apply bind_ok in H. destruct H as (s1 & H1 & H).
+    assert (Hstep : exists al1, G s1 hs al1 rem /\ same_ctl s s1 /\ length (slots s1) = length (slots s) /\
+                      al1 = filter (fun p => negb (handle_eqb (hnd hs (fst p)) h)) al).
+    { destruct (Hm h (or_introl eq_refl)) as [->|(k & Hk & <-)].
+      - unfold destroy_now_unlocked in H1. rewrite is_valid_null in H1. inversion H1; subst s1.
+        exists al. split; [assumption|]. split; [apply same_ctl_refl|]. split; [reflexivity|].
+        symmetry. apply forallb_filter_id. apply forallb_forall. intros [k key] Hin. simpl. apply negb_true_iff.
+        apply not_true_is_false. intros E. apply handle_eqb_eq in E. eapply alive_not_null; eauto.
+      - destruct (G_destroy_now s s1 hs al rem k HG Hk Hcnt H1) as (HG1 & Hctl & Hlen).
+        exists (kill al k). split; [assumption|]. split; [assumption|]. split; [assumption|].
+        eapply kill_as_handle_filter; eauto. }
+    destruct Hstep as (al1 & HG1 & Hctl1 & Hlen1 & ->).
+    destruct (IH s1 _ s' HG1 Hcnt (fun h' Hh' => Hm h' (or_intror Hh')) H) as (HG2 & Hctl2 & Hlen2).
+    rewrite filter_filter in HG2. split; [|split; [eapply same_ctl_trans; eassumption|congruence]].
+    unfold not_in_marked in *. simpl. exact HG2.
 Qed.
